@@ -1603,8 +1603,14 @@ def check_update_protocol(ck, R):
           "a newly defined function does not bump the global generation: other functions keep versions computed before it existed", ini.where())
     uf = FA(ck, MF + "._update_fn_reference")
     fr = uf.calls("FunctionReference")
-    okf = len(fr) == 1 and A.norm(A.kwarg(fr[0], "version")) == "self.version()" and A.norm(A.kwarg(fr[0], "cluster_name")) == "self.cluster_name" \
-        and A.norm(A.kwarg(fr[0], "partial_args")) == "self.partial_args" and A.norm(A.kwarg(fr[0], "partial_kwargs")) == "self.partial_kwargs" \
+    FRI = "reference.FunctionReference.__init__"
+
+    def fr_arg(name):
+        a_ = _call_arg(ck, fr[0], FRI, name)
+        return uf.xnorm(a_, uf.nodes(fr[0])[0]) if a_ is not None and uf.nodes(fr[0]) else None
+
+    okf = len(fr) == 1 and fr_arg("version") == "self.version()" and fr_arg("cluster_name") == "self.cluster_name" \
+        and fr_arg("partial_args") == "self.partial_args" and fr_arg("partial_kwargs") == "self.partial_kwargs" \
         and any(A.dotted(t) == "self._fn_reference" for s_ in uf.stmts(ast.Assign) for t in s_.targets)
     ck.ob(R, uf.key(None, "reference-from-current-version"), okf, "the reference is rebuilt with the current version and the partials" if okf else
           "_update_fn_reference does not rebuild FunctionReference(self, cluster, version=self.version(), partials)", uf.where())
@@ -2097,5 +2103,7 @@ def check_graph_derivation(ck, R):
     ck.ob(R, n.key(None, "first-level-false"), okf, "names reached through a plain helper are not direct" if okf else
           "dependencies reached through a plain helper are marked first_level", n.where())
     hr = FA(ck, MF + ".hash_rules")
-    okh = any(A.call_attr(c) == "_update_dependencies" for c in hr.calls()) and all(A.norm(r.value) == "self._hash_rules" for r in hr.returns())
+    okh = any(A.call_attr(c) == "_update_dependencies" for c in hr.calls()) and bool(hr.returns()) \
+        and all(r.value is not None and hr.nodes(r) and hr.xnorm(r.value, hr.nodes(r)[0]) == "self._hash_rules"
+                and hr.cfg.must_pass(hr.nodes_all(hr.calls("_update_dependencies")), hr.nodes(r)[0]) for r in hr.returns())
     ck.ob(R, hr.key(None), okh, "hash_rules() refreshes before answering" if okh else "hash_rules() does not refresh dependencies first", hr.where())
